@@ -203,6 +203,101 @@ def run_trace(ctx, res, seed, trace, lossy=False, tracer=False, conf=None):
         return h
 
 
+def kids_of(ep):
+    return [c for s in ep.sas() if int(s.state) == 10 for c in s.child_sas]
+
+
+def drain(h, limit=60):
+    n = 0
+    while h.w.net and n < limit and not h.findings:
+        h.op('deliver', h.w.net[0].id)
+        n += 1
+
+
+def f4(vals):
+    return 'f:' + ','.join('-' if v is None else bytes(v).hex() for v in vals)
+
+
+def run_coincide(ctx, res, seed, acq, mode, steps, conf=None, oracles=None, deep=False):
+    """each end chooses the SPIs of its own inbound SAs, so nothing keeps the two ends from choosing the same 4-byte value for
+    different CHILD_SAs.  Start: one CHILD_SA (I.in = i1, R.in = r1); `acq` acquires a second one whose SPIs are forced so
+    that   r2=i1: the responder's new SPI equals the initiator's SPI of the first   i2=r1: the initiator's new SPI equals the
+    responder's SPI of the first   r2=i2: both directions of the new one carry the same value   i2=i1r2=r1 cannot happen (the
+    kernel refuses a second SA with the same key).  Then `steps`: (endpoint, kid index, 'soft'|'hard', coincide-again)."""
+    conf = conf or CONF
+    with CP.History(seed, trace=deep and ctx.driver is not None, deep=deep, **conf) as h:
+        h.oracles = list(oracles or ORACLES)
+        if not h.establish('A'):
+            return None
+        w = h.w
+        I, R = (w.A, w.B) if acq == 'A' else (w.B, w.A)
+        k1 = kids_of(I)[0]
+        i1, r1 = bytes(k1.inbound_spi), bytes(k1.outbound_spi)
+        other = bytes(x ^ 0x5a for x in i1)
+        h.op('force4', f4({'r2=i1': [None, i1], 'i2=r1': [r1, None], 'r2=i2': [other, other], 'both': [r1, i1]}[mode]))
+        h.op('acquire', acq, 4001)
+        drain(h)
+        h.op('force4', 'f:')
+        if len(kids_of(I)) == 2 and len(kids_of(R)) == 2:
+            res.count('coincide:%s' % mode)
+        for (e, idx, kind, again) in steps:
+            if h.findings:
+                break
+            ep = w.A if e == 'A' else w.B
+            peer = w.B if e == 'A' else w.A
+            ks = kids_of(ep)
+            if not ks:
+                break
+            c = ks[idx % len(ks)]
+            # name the CHILD_SA by an SPI only it has at this end when there is one (the kernel's notice names one SA)
+            spis = [bytes(x) for k in ks for x in (k.inbound_spi, k.outbound_spi)]
+            own = [x for x in (bytes(c.inbound_spi), bytes(c.outbound_spi)) if spis.count(x) == 1]
+            name = own[0] if own else bytes(c.inbound_spi)
+            if again and kind == 'soft':
+                # the responder of the rekey chooses, for the replacement, a value the initiator already uses for another CHILD_SA
+                others = [bytes(k.inbound_spi) for k in ks if k is not c]
+                mine = [bytes(k.inbound_spi) for k in kids_of(peer)]
+                cand = [x for x in others if x not in mine]
+                if cand:
+                    h.op('force4', f4([None, cand[0]]))
+            h.op('expire', e, name, kind == 'hard')
+            drain(h)
+            if w.forced4:
+                h.op('force4', 'f:')
+        if not h.findings:
+            h.settle(120)
+            for key, what in (quiescent_findings(h) if oracles is None else []):
+                h.findings.append((key + ':coinciding-spis', what, len(h.ops) - 1))
+        res.evaluations += len(h.ops)
+        res.nontrivial.add(('coincide', acq, mode, tuple(steps)))
+        for key, what, at in h.findings[:2]:
+            res.fail(key, what, {'seed': seed, 'conf': conf, 'faults': None, 'coincide': [acq, mode, [list(map(str, x)) for x in steps]],
+                                 'ops': S.ser_ops(h.ops[:at + 1]), 'oracle': key})
+        if h.tr is not None:
+            h.tr.close()
+            S.deep_check(ctx, res, h.tr)
+        return h
+
+
+def coincide_campaign(ctx, res, oracles=None, deep=False):
+    n = 0
+    steps1 = [[(e, i, k, a)] for e in 'AB' for i in (0, 1) for k in ('soft', 'hard') for a in (False, True) if not (a and k == 'hard')]
+    for acq in 'AB':
+        for mode in ('r2=i1', 'i2=r1', 'r2=i2', 'both'):
+            for st in steps1:
+                run_coincide(ctx, res, 4242, acq, mode, st, oracles=oracles, deep=deep and n % 4 == 0)
+                n += 1
+            # two steps: a rekey whose replacement coincides again, then a delete or another rekey of either CHILD_SA from either end
+            for e in 'AB':
+                for i in (0, 1):
+                    for e2 in 'AB':
+                        for i2 in (0, 1):
+                            for k2 in ('soft', 'hard'):
+                                run_coincide(ctx, res, 4243, acq, mode, [(e, i, 'soft', True), (e2, i2, k2, False)], oracles=oracles, deep=deep and n % 8 == 0)
+                                n += 1
+    res.extra['coinciding_spi_histories'] = n
+
+
 def run(ctx):
     res = Result()
     rng = ctx.rng
@@ -253,6 +348,7 @@ def run(ctx):
         run_trace(ctx, res, rng.randrange(1 << 30), trace, tracer=(k % 10 == 0), conf=CONF_KE if k % 4 == 3 else CONF)
     res.extra['random_walks'] = walks
     res.sample({'trace': [list(map(str, s)) for s in trace]})
+    coincide_campaign(ctx, res)
     # an authentic peer that says unusual things: every handler branch the honest schedules do not take is replayed on the model
     import rogue
     rogue.campaign(ctx, res, ctx.scale(8, 150), 50)
